@@ -79,6 +79,10 @@ def render_events(events, in_body):
             lam = "λ W ⅛ " + render_events(body, True) + " 0 ;"
             pre = lit_args(call_sents)
             out.append(f"{lam} →{name} ⟨{lit(pair[0])}|{lit(pair[1])}⟩ ←{name} R _ " + (pre + " " if pre else "") + f"←{name} † _")
+        elif k == "rec":
+            # a lambda that calls itself (x) with its argument minus one down to 0; AFTER the inner call has returned,
+            # every level does one implicit read in its OWN scope
+            out.append(f"{ev[1]} λ W ⅛ n [ n ‹ x _ ] ⅛ 0 ; † _")
         elif k == "amp":
             # `&` with a dyad: pushes the register, then pops TWO values for its function -- on an empty stack the second is
             # an implicit read.  Its value ends up inside the register in a quirky shape; what is judged is that exactly one
@@ -100,7 +104,11 @@ def render_events(events, in_body):
             arity, sents, body = ev[1], ev[2], ev[3]
             head = "λ" if arity is None else f"λ{arity}|"
             pre = lit_args(sents)
-            if len(ev) > 4 and ev[4]:
+            if len(ev) > 4 and ev[4] == "X":
+                # the lambda is left through X with an empty stack: the value it returns is one more implicit read in its
+                # own scope; the caller goes on reading afterwards
+                out.append((pre + " " if pre else "") + head + " W ⅛ " + render_events(body, True) + " 1 [ X ] 0 ; † ⅛")
+            elif len(ev) > 4 and ev[4]:
                 # the body ends with an EMPTY stack: the lambda's result is one more implicit read in its own scope,
                 # made observable by sending the returned value to the global array
                 out.append((pre + " " if pre else "") + head + " W ⅛ " + render_events(body, True) + " ; † ⅛")
@@ -218,6 +226,13 @@ class Monitor:
                 child2 = Scope("call", args2)
                 self.calls.append(child2)
                 self.walk(body, child2)
+            elif k == "rec":
+                d = ev[1]
+                got = [self.take("recursion") for _ in range(2 * (d + 1))]
+                want = [[j] for j in range(d, -1, -1)] + list(range(0, d + 1))
+                if got != want:
+                    raise Mismatch("call-cycle", f"a lambda recursing from {d} down to 0 saw arguments / own-scope reads {got}, "
+                                                 f"expected {want}")
             elif k == "amp":
                 scope.groups.append([ANY])
             elif k == "par":
@@ -340,7 +355,7 @@ class C11(core.Check):
     id = "C11"
     title = "Input is a cyclic stream shared by explicit and implicit reads"
     tiers = {
-        "quick": dict(runs=30_000, batch=400, wall=80),
+        "quick": dict(runs=30_000, batch=200, wall=80),
         "thorough": dict(runs=600_000, batch=800, wall=840),
     }
     per_run_timeout = 60
@@ -405,9 +420,11 @@ class C11(core.Check):
                 evs.append(["over", [sent()] if r.random() < 0.4 else []])
             elif x < 0.57:
                 evs.append(["tilde"])
-            elif x < 0.585:
+            elif x < 0.58:
                 evs.append(["amp"])
-            elif x < 0.60:
+            elif x < 0.59:
+                evs.append(["rec", r.randint(1, 4)])
+            elif x < 0.605:
                 evs.append(["par", r.choice(["₌", "₍"]), r.choice([":", "\""]), r.choice([":", "\""])])
             elif x < 0.625 and depth < 2:
                 evs.append(["zcall", r.choice(["S", "Ḟ"]), self.gen_events(r, depth + 1, 0, maps, True, sent)[:2]])
@@ -421,8 +438,13 @@ class C11(core.Check):
                 arity = r.choice([None, 0, 1, 2, 3, 1, 2])
                 a = 1 if arity is None else arity
                 p = r.randint(0, a)
-                evs.append(["lam", arity, [sent() for _ in range(p)],
-                            self.gen_events(r, depth + 1, 0, maps, True, sent), r.random() < 0.3])
+                body_ = self.gen_events(r, depth + 1, 0, maps, True, sent)
+                how_ = r.choice([False, False, False, True, True, "X"])
+                if how_ == "X":
+                    # an X that FOLLOWS a modifier in the same body is parsed under the modifier and lowered to `pass`
+                    # (a quirk of the given parser): keep modifiers out of bodies that end with an early exit
+                    body_ = [e for e in body_ if e[0] not in ("tilde", "amp", "par")]
+                evs.append(["lam", arity, [sent() for _ in range(p)], body_, how_])
             elif x < 0.80 and depth < 2 and not in_body:
                 params = r.choice([["1"], ["2"], ["3"], ["a"], ["1", "a"], ["a", "2"], []])
                 total = sum(int(q) if q.isdigit() else 1 for q in params)
